@@ -185,6 +185,26 @@ func (rr *rulesRunner) printNode(buf *bytes.Buffer, n ast.Node) {
 			}
 			rr.printNode(buf, n.At(i))
 		}
+	case *gogrep.PartialNode:
+		// `range $x` or `for $k, $v := range $x`: a part of a range statement.
+		rng, ok := n.X.(*ast.RangeStmt)
+		if !ok {
+			rr.printNode(buf, n.X)
+			return
+		}
+		if n.Pos() == rng.Pos() {
+			buf.WriteString("for ")
+			if rng.Key != nil {
+				rr.printNode(buf, rng.Key)
+				if rng.Value != nil {
+					buf.WriteString(", ")
+					rr.printNode(buf, rng.Value)
+				}
+				buf.WriteString(" " + rng.Tok.String() + " ")
+			}
+		}
+		buf.WriteString("range ")
+		rr.printNode(buf, rng.X)
 	case *ast.FieldList:
 		if n.Opening.IsValid() {
 			buf.WriteByte('(')
